@@ -331,7 +331,7 @@ class EndToEnd(Sub):
         tasks = []
         second_family = any(op[0] in ("event2", "stall", "unstall", "resub") for op in ops)
         pending_adds = []
-        reqs_sent = [[[1, 2]], [[1, 2]]]   # per subscriber: kinds of every REQ "live" it sent, in order
+        reqs_sent = [[[1, 2, 20001]], [[1, 2, 20001]]]   # per subscriber: kinds of every REQ "live" it sent, in order
         try:
             cfg = {"run_notifier": True}
             ra = H.Rig("sql", config=cfg, file_db=True)
@@ -358,7 +358,7 @@ class EndToEnd(Sub):
             subs = []
             for i, r in enumerate(rigs):
                 c = r.conn("10.0.%d.1" % i)
-                c.feed(["REQ", "live", {"kinds": [1, 2]}])
+                c.feed(["REQ", "live", {"kinds": [1, 2, 20001]}])
                 subs.append(c)
             # the subscriptions are live (EOSE seen) before anything is published; no timer may fire meanwhile
             for _ in range(400):
@@ -433,7 +433,10 @@ class EndToEnd(Sub):
                     continue
                 w, held = op[1], op[2]
                 n += 1
-                ev = E.make(w, 1, E.T0 + n, [], "event %d" % n)
+                # every third event is ephemeral: stored and announced like any other on this (SQL) backend
+                ev = E.make(w, 20001 if n % 3 == 0 else 1, E.T0 + n, [], "event %d" % n)
+                if ev["kind"] == 20001:
+                    labels.append("ephemeral-event")
                 if held:
                     gates[w] = asyncio.Event()
                     t = asyncio.create_task(rigs[w].storage.add_event(dict(ev)))
